@@ -87,7 +87,12 @@ def main():
                             okonce = True
                             break
                     if not okonce:
-                        still.append(tn)
+                        # does it fail on the unchanged tree under the same machine load as well?
+                        sh("git apply -R %s" % os.path.join(src, "patch.diff"), cwd=wt)
+                        r3, _o = sh("go test -vet=off -count=1 -run '^%s$' ./%s/..." % (tn, pk), cwd=wt)
+                        sh("git apply %s" % os.path.join(src, "patch.diff"), cwd=wt)
+                        if r3 == 0:
+                            still.append(tn)
                 if failing and not still:
                     rct = 0
                     note = " (load-sensitive, passed when re-run alone: %s)" % ",".join(failing)
